@@ -28,3 +28,5 @@ for P in "$@"; do
 done
 cd /repo && git checkout -- . 
 git -C /repo status --short | head -3
+# evidence written while the change was applied describes the changed tree: put the committed evidence back
+git -C /verif checkout -- evidence 2>/dev/null
